@@ -630,7 +630,7 @@ func (g *G1) pathExpr(d int) string {
 	if d <= 0 {
 		return g.pathAtom()
 	}
-	switch g.pick(16) {
+	switch g.pick(17) {
 	case 0, 1:
 		return g.pathExpr(d-1) + " | " + g.pathExpr(d-1)
 	case 2:
@@ -659,6 +659,29 @@ func (g *G1) pathExpr(d int) string {
 		s := paren(paren(g.expr(kAny, 1)) + " as " + v + " | " + g.pathExpr(d-1))
 		g.vars = g.vars[:len(g.vars)-1]
 		return s
+	case 13:
+		// destructuring bind at path level; the source may be the bare identity (which compiles to no code at all)
+		v := g.newVar()
+		g.vars = append(g.vars, v)
+		src := g.oneOf(".", ".", ".a", "first(.)", ".[0]", "(.)", ". | .", paren(g.expr(kAny, 1)))
+		pat := g.oneOf("["+v+"]", "{a: "+v+"}", "{"+v+"}", "[[ "+v+"]]", "{\"a\": ["+v+"]}", "[$q0, "+v+"]", "{a: {b: "+v+"}}", "["+v+"] ?// "+v, "{a: "+v+"} ?// ["+v+"] ?// "+v)
+		body := g.oneOf(".", ".["+v+"]?", ".["+v+"]", "getpath(["+v+"])?", g.pathExpr(d-1), g.pathExpr(d-1), ".a, .["+v+"]?")
+		s := paren(src + " as " + pat + " | " + body)
+		g.vars = g.vars[:len(g.vars)-1]
+		return s
+	// reduce/foreach are deliberately absent: the state of a fold is carried in a variable, not on the path stack, so they
+	// are outside the path-safe grammar (jq 1.6 gives the same answers as gojq there)
+	case 14:
+		switch g.pick(4) {
+		case 0:
+			return paren("def pf: " + g.pathExpr(d-1) + "; pf")
+		case 1:
+			return paren("label $pl | (" + g.pathExpr(d-1) + ", break $pl, " + g.pathExpr(d-1) + ")")
+		case 2:
+			return paren("try " + paren(g.pathExpr(d-1)) + " catch " + g.oneOf(".", "empty", g.pathAtom()))
+		default:
+			return paren("def pf(p): p | " + g.pathExpr(d-1) + "; pf(" + g.pathExpr(d-1) + ")")
+		}
 	}
 	return g.pathAtom()
 }
